@@ -62,3 +62,40 @@ def run(unit, em):
                     em.ok(r, txt, 'prune, mirror, prune, mirror back', 'N2')
                 else:
                     em.violation(r, txt, 'useless-state removal must be RemoveUnreachableStates . Reverse . RemoveUnreachableStates . Reverse', 'N2')
+
+
+# ---- N3: the empty word needs no transition — no NFA operation takes a shortcut on an empty transition relation
+def run_n3(unit, em):
+    """An NFA accepts the empty word when a start state is final, whatever its transitions.  Instance: every early exit
+    (`if (c) return ..;`) of an operation of the NFA core whose condition looks at the emptiness / size of `transitions_`.
+    Obligation: none may occur — `transitions_->empty()` does not imply an empty language, so returning an empty (or
+    unchanged) result there loses (or keeps) exactly the word epsilon.  (`finalStates_.empty()` or `startStates_.empty()`
+    alone do imply emptiness and are fine.)"""
+    from vfacts import stmt_exits, is_node
+    seen_fn = False
+    for fn in unit.functions:
+        if fn.body is None or 'explicit_finite' not in fn.file or not (fn.d.get('cls') or '').endswith('ExplicitFiniteAutCore'):
+            continue
+        for n in fn.walk(lambdas=False):
+            if n['k'] != 'IfStmt' or not is_node(n.get('c')) or not stmt_exits(n.get('th')):
+                continue
+            hit = None
+            for x in walk(n['c']):
+                if x['k'] == 'CXXMemberCallExpr' and method_name(x) in ('empty', 'size'):
+                    rp = root_path(x.get('obj'))
+                    if rp and 'transitions_' in rp:
+                        hit = x
+            if hit is None:
+                continue
+            rets = [m for m in walk(n['th'], lambdas=False) if m['k'] == 'ReturnStmt']
+            if rets:
+                em.violation(n, unit.text(n['c'], 70), 'this early return is taken when the automaton has no transitions; a start state that is final still accepts the empty word, which the shortcut loses (Reverse of {epsilon} becomes empty, and with it trimming, intersection and the witness of such languages)', 'N3')
+    return
+
+
+_run_n12 = run
+
+
+def run(unit, em):
+    _run_n12(unit, em)
+    run_n3(unit, em)
